@@ -1,16 +1,66 @@
 """check specification for C18 (loaded by lib/props.py)"""
 
+
+def _post(merged, tier):
+    """A run whose canaries were not detected (or whose tracer saw nothing) is a broken check, not a verdict."""
+    c = merged.get("counters", {})
+    problems = []
+    if c.get("canary_detected", 0) < 1:
+        problems.append("the racy canary (static scratch buffer) was not found dependent / race + divergence not detected within the bound")
+    if c.get("guard_canary_ok", 0) < 1:
+        problems.append("the guarded canary (function-local static) was not handled as ordered by its guard")
+    if c.get("lock_canary_ok", 0) < 1:
+        problems.append("the locked canary (std::mutex) was not explored cleanly")
+    if c.get("tracer_alive", 0) < 1:
+        problems.append("no shared-capable read was recorded for any libtins workload (instrumentation callbacks dead)")
+    if problems:
+        raise SystemExit("BROKEN-CHECK property=C18: " + "; ".join(problems))
+    return {"preemption_bound": merged.get("max", {}).get("preemption_bound", 2)}
+
+
 SPEC = {
     "level": "model_checking",
     "stages": [
-        {"name": "footprint+schedules", "harness": "C18_threads.cpp", "config": "trace", "extra_srcs": ["harness/C18_workloads.cpp"],
+        # stage 1 (footprint independence) + stage 2 (preemption-bounded exploration, canaries) in one binary
+        {"name": "footprint+schedules", "harness": "C18_threads.cpp", "config": "trace", "extra_srcs": ["harness/C18_workloads.cpp", "harness/C18_sweep.cpp"], "gen": True,
          "deadline": {"quick": 600, "thorough": 2400}},
-        {"name": "tsan", "harness": "C18_tsan.cpp", "config": "tsan", "extra_srcs": ["harness/C18_workloads.cpp"],
+        # stage 3: free-running TSan pass (no cooperative scheduler in this binary)
+        {"name": "tsan", "harness": "C18_tsan.cpp", "config": "tsan", "extra_srcs": ["harness/C18_workloads.cpp", "harness/C18_sweep.cpp"], "gen": True,
          "deadline": {"quick": 600, "thorough": 2400}},
     ],
-    "technique": "TBD",
-    "rule": "TBD",
-    "claim": "TBD",
-    "note": "TBD",
-    "assumptions": ["TBD"],
+    "post": _post,
+    "technique": ("schedule exploration over real threads on the real code: load/store footprint independence (partial-order argument covering "
+                  "every interleaving of <= 16 threads) + exhaustive enumeration of all schedules with <= 2 preemptions under a cooperative "
+                  "scheduler for dependent sets and canaries + free-running ThreadSanitizer pass"),
+    "rule": ("13 workloads (parse Ethernet/Dot1Q/IP/TCP; parse DNS + all section getters; build+serialize IP/UDP/DNS; RadioTap set/serialize/parse; "
+             "IPv4 reassembly; StreamFollower on a short connection with explicit timestamps; WEP decrypt; WPA2 handshake + CCMP (thorough: + TKIP) "
+             "decrypt; address parse/format/ranges/predicates; CRC-32 + checksums; PDU copy/move/clone; parsing through registered/unknown EtherTypes "
+             "and IP protocols (allocator registry); ICMPv6/DHCPv6 typed options), each creating, using and destroying only its own objects and "
+             "returning a digest of everything observed.  STAGE 1: libtins + workloads compiled with -fsanitize-coverage=trace-loads,trace-stores; "
+             "malloc family, memcpy/memmove/memset/strlen/memcmp/bcmp/sprintf/snprintf, __cxa_guard_* and pthread_mutex_* interposed; every workload "
+             "runs alone in a fresh forked process, cold then warm; every access is private (own stack, heap block allocated during the run) or "
+             "shared-capable (anything else; recorded per byte with its symbol); for EVERY pair (Wi,Wj) incl. i==j: a byte written by one and accessed "
+             "by the other makes the pair dependent (bytes written only inside a function-local-static guard region and accessed only after a check "
+             "of that guard are ordered); independent sets get one finely interleaved representative schedule (round robin every 61 accesses, "
+             "k = 2 for all 91 pairs, k = 3,4,8,16 for rotations) whose per-thread digests must equal the digests alone.  STAGE 2: for every dependent "
+             "pair (thorough: + triples) and always for three canaries, real pthreads under a cooperative scheduler (one runnable at a time, semaphore "
+             "hand-off), scheduling points = accesses to the conflict bytes + guard and mutex operations, ALL schedules with <= 2 preemptions (levels "
+             "0,1,2), each executed in a fresh forked process; verdicts: race = two threads enabled at conflicting accesses to the same byte, "
+             "divergence = thread digest != digest alone, dead-lock, crash/hang under a schedule; the first failing schedule of every signature is "
+             "replayed twice and must reproduce identically.  STAGE 3: separate TSan binary, k in {2,3,4,8,16} free-running threads x strides {0,1,5} "
+             "over the workload list, started from a cold process; every TSan report and every digest mismatch is a violation.  "
+             "states = schedules executed (representative + explored + canaries); transitions = scheduling points executed; "
+             "distinct_nontrivial = workloads with >= 1 shared-capable read."),
+    "claim": ("If no pair is dependent, every interleaving of any k <= 16 threads running these workloads on private objects is equivalent to the "
+              "serial composition and free of data races on instrumented code (first divergent step would need a conflicting access); dependent "
+              "sets are covered for all schedules with <= 2 preemptions at their conflicting accesses."),
+    "note": ("Trusted: libc allocator, libstdc++ internals (out-of-line code such as red-black-tree rebalancing, locale reference counts), OpenSSL, "
+             "libpcap are not instrumented and assumed thread-safe as documented; SC interleavings only (data-race freedom makes that sufficient); "
+             "a heap block allocated during a run is private until a pointer to it is stored into shared memory (that store is a shared write); "
+             "mc::g_live_allocs (allocation counter of the check's own runtime, bumped by the replaced operator new) is excluded from the "
+             "dependence relation.  A run whose canaries are not detected exits non-zero as BROKEN-CHECK."),
+    "assumptions": ["threads share no libtins objects (property premise); the user-registered allocators are registered before threads start",
+                    "uninstrumented third-party libraries (libc, libstdc++.so, libcrypto, libpcap) are thread-safe as documented",
+                    "sequentially consistent interleavings; preemption bound 2 for dependent sets",
+                    "instrumentation: clang 14 sanitizer coverage trace-loads/trace-stores (trace), ThreadSanitizer (tsan)"],
 }
